@@ -14,6 +14,11 @@ of the composite); `Spec/Authn.lean` says what the property demands in terms of 
 lists, all fallback settings (definition and rule-level override), all requests and all worlds (what lies outside
 heimdall: which strings are JWTs, what signature / assertion / introspection / identity checks say).
 
+The last two sections cover credentials in a body parameter (which media types make the body readable:
+`c04_body_decoder_by_media_type`, `c04_body_credential_is_found`, `c04_body_credential_rejected_is_final`) and the
+endpoint's own authentication failing after the client's credential was found
+(`c04_endpoint_authentication_failure_is_no_argument_error`, `c04_failed_endpoint_authentication_is_final`).
+
 Hypotheses, all decidable, all with a witness below:
 * `w.wf` — the verdicts of the world name places of the source reached after a credential was found, and the run-time
   errors of other packages handed to `CausedBy` there contain no argument error (extracted fact behind it:
@@ -503,5 +508,226 @@ example : judge wWorldClaims wReqBadJwt [wChain[0], wChain[2]]
 /-- … and one that stops at the JWT authenticator although no token was sent -/
 example : judge wWorld wReqNone wChain [("jwt", .err [.argument, .authentication])]
     (some (.err [.argument, .authentication])) = false := by decide
+
+/-! ## credentials in the body: which media types are read -/
+
+/-- **Which decoder reads the body of a request** — for every value of the `Content-Type` header (all its lines
+joined by `,`): the JSON decoder exactly if the value contains `json` *anywhere* (so with parameters, with a
+structured syntax suffix such as `application/vnd.api+json`, as one of several media types), else the form decoder
+exactly if it contains `application/x-www-form-urlencoded`, else the YAML decoder exactly if it contains `yaml`, and
+none otherwise. -/
+theorem c04_body_decoder_by_media_type (ct : String) :
+    (decoderFor ct = some .json ↔ ∃ p s : String, ct = p ++ "json" ++ s) ∧
+    (decoderFor ct = some .form ↔
+      (¬ ∃ p s : String, ct = p ++ "json" ++ s) ∧ ∃ p s : String, ct = p ++ "application/x-www-form-urlencoded" ++ s) ∧
+    (decoderFor ct = some .yaml ↔
+      (¬ ∃ p s : String, ct = p ++ "json" ++ s) ∧
+      (¬ ∃ p s : String, ct = p ++ "application/x-www-form-urlencoded" ++ s) ∧ ∃ p s : String, ct = p ++ "yaml" ++ s) := by
+  refine ⟨?_, ?_, ?_⟩
+  · rw [decoderFor_json_iff, contains_iff]
+  · rw [decoderFor_form_iff, ← contains_iff, ← contains_iff]; simp
+  · rw [decoderFor_yaml_iff, ← contains_iff, ← contains_iff, ← contains_iff]; simp
+
+example : decoderFor "application/vnd.api+json; charset=utf-8" = some .json ∧
+    decoderFor "application/problem+json" = some .json ∧ decoderFor "text/plain,application/json" = some .json ∧
+    decoderFor "application/x-www-form-urlencoded;charset=UTF-8" = some .form ∧
+    decoderFor "application/vnd.oai.openapi+yaml" = some .yaml ∧ decoderFor "application/yaml+json" = some .json ∧
+    decoderFor "APPLICATION/JSON" = none ∧ decoderFor "text/plain" = none ∧ decoderFor "" = none := by decide
+
+/-- **A credential in a body parameter is a credential that was found, however the media type is spelled**: if the
+decoder named by the `Content-Type` of the request reads the body as a map that holds one string under `name`, the
+request carries authentication data at the source `body_parameter: name` — that string without surrounding space. If
+the `Content-Type` names no decoder, or the decoder fails, the request carries none there. -/
+theorem c04_body_credential_is_found (r : Req) (name : String) :
+    (∀ f m v s, decoderFor (r.header "Content-Type") = some f → r.payload.readBy f = some m →
+      m.find? (fun p => p.1 == name) = some (name, v) → single v = some s →
+      present (.body name) r = true ∧ value (.body name) r = trimSpace s ∧
+      (Strategy.body name).get r = .ok (trimSpace s)) ∧
+    (decoderFor (r.header "Content-Type") = none → present (.body name) r = false) ∧
+    (∀ f, decoderFor (r.header "Content-Type") = some f → r.payload.readBy f = none →
+      present (.body name) r = false) := by
+  refine ⟨fun f m v s hd hp hm hs => ?_, fun hd => ?_, fun f hd hp => ?_⟩
+  · have hb := bodyParam_of_decoded r f m name hd hp
+    rw [hm] at hb
+    have h1 : present (.body name) r = true := by simp [present, hb, hs]
+    have h2 : value (.body name) r = trimSpace s := by simp [value, hb, hs]
+    exact ⟨h1, h2, by rw [get_eq, h1, h2]; rfl⟩
+  · simp [present, bodyParam_no_decoder r name hd]
+  · simp [present, Req.bodyParam, Req.body, hd, hp]
+
+/-- a token in a JSON body announced as `application/vnd.api+json` (a structured syntax suffix, a parameter) -/
+def wReqBodyToken : Req :=
+  { headers := [("content-type", "application/vnd.api+json; charset=utf-8")],
+    payload := { json := some [("data", .other), ("access_token", .str " head.body.sign ")] } }
+
+example : present (.body "access_token") wReqBodyToken = true ∧
+    credential defaultSources wReqBodyToken = some "head.body.sign" ∧
+    usable wWorld wChain[0] wReqBodyToken = true ∧
+    run wWorld wReqBodyToken [wChain[0], wChain[2]] = .failure (.chain [.kind .authentication, .foreign]) ∧
+    runConsulted wWorld wReqBodyToken [wChain[0], wChain[2]] = 1 := by decide
+
+/-- **A rejected credential from the body is final**: the authenticator's first source carrying a value is a body
+parameter, the media type of the request names JSON *anywhere* in the `Content-Type` value (`p ++ "json" ++ s`: any
+parameters, any structured syntax suffix, any further media types), the JSON decoder reads one string under that
+name — then the authenticator found credentials of its kind (`jwt`: if the string is a JWT); if it fails on them and
+does not allow fallback, authentication fails with its error whatever follows, the error is no argument error and no
+later authenticator is consulted. -/
+theorem c04_body_credential_rejected_is_final (w : World) (r : Req) (pre post : List Authn) (a : Authn) (e : Err)
+    (ss : List Strategy) (name p sfx s : String) (m : List (String × BVal)) (v : BVal)
+    (hw : w.wf = true) (hc : (pre ++ a :: post).all Authn.wf = true)
+    (hpre : ∀ b ∈ pre, fails w r b = true ∧ (usable w b r = false ∨ b.fallback = true))
+    (hct : r.header "Content-Type" = p ++ "json" ++ sfx) (hp : r.payload.json = some m)
+    (hm : m.find? (fun q => q.1 == name) = some (name, v)) (hs : single v = some s)
+    (hfirst : ss.find? (present · r) = some (.body name))
+    (ht : a.typ = .introspection ss ∨ a.typ = .generic ss ∨ (a.typ = .jwt ss ∧ w.parsesJWT (trimSpace s) = true))
+    (hx : a.execute w r = .error e) (hf : a.fallback = false) :
+    usable w a r = true ∧ e.is .argument = false ∧
+    run w r (pre ++ a :: post) = .failure e ∧ runConsulted w r (pre ++ a :: post) = pre.length + 1 := by
+  have hd : decoderFor (r.header "Content-Type") = some .json :=
+    (c04_body_decoder_by_media_type _).1.2 ⟨p, sfx, hct⟩
+  have hval := ((c04_body_credential_is_found r name).1 .json m v s hd hp hm hs).2.1
+  have hcred : credential ss r = some (trimSpace s) := by simp [credential, hfirst, hval]
+  have hu : usable w a r = true := by
+    obtain ⟨id, typ, af, ov, key⟩ := a
+    simp only at ht
+    rcases ht with ht | ht | ⟨ht, hj⟩ <;> subst ht <;> simp [usable, hcred]
+    exact hj
+  have ha : a.wf = true := by
+    simp only [List.all_append, List.all_cons, Bool.and_eq_true] at hc
+    exact hc.2.1
+  have hfin := c04_rejected_is_final w r pre post a e hw hc hpre hx hu hf
+  refine ⟨hu, ?_, hfin.1, hfin.2⟩
+  have := (c04_argument_error_iff_no_usable_credentials w a r e hw ha hx)
+  cases h : e.is .argument with
+  | false => rfl
+  | true => rw [this.1 h] at hu; cases hu
+
+/-- the hypotheses are satisfiable: the request above at the chain `jwt, anonymous` -/
+example : ∃ e, (wChain[0].execute wWorld wReqBodyToken = .error e) ∧
+    wReqBodyToken.header "Content-Type" = "application/vnd.api+" ++ "json" ++ "; charset=utf-8" ∧
+    defaultSources.find? (present · wReqBodyToken) = some (.body "access_token") ∧
+    wWorld.parsesJWT (trimSpace " head.body.sign ") = true := ⟨_, rfl, by decide, by decide, by decide⟩
+
+/-- the judgement rejects a run that takes such a request for one without credentials and hands it to `anonymous`
+(what a decoder selection by exact media type would do to `application/vnd.api+json`) -/
+example : judge wWorld wReqBodyToken [wChain[0], wChain[2]]
+    [("jwt", .err [.argument, .authentication]), ("anon", .ok "anonymous")] (some (.ok "anonymous")) = false ∧
+    judge wWorld wReqBodyToken [wChain[0], wChain[2]] [("jwt", .err [.authentication])]
+      (some (.err [.authentication])) = true := by decide
+
+/-- a `Content-Type` that names no decoder (the comparison is case-sensitive): the body is a string for the
+extractors, the request carries no credentials and reaches `anonymous` -/
+example : run wWorld { wReqBodyToken with headers := [("Content-Type", "APPLICATION/JSON")] } [wChain[0], wChain[2]] =
+    .subject "anonymous" := by decide
+
+/-! ## the endpoint's own authentication fails -/
+
+/-- **Whatever the authorization server answers to heimdall's own token request** (`oauth2_client_credentials` of the
+identity / JWKS / introspection / metadata endpoint: any status code, any error code of RFC 6749 or other, any body,
+no answer at all) **the failure to authenticate the request to the endpoint is no argument error** — neither as
+`Endpoint.CreateRequest` reports it, nor wrapped by `MetadataEndpoint.Get`, nor attached to the "failed creating
+request" / "failed retrieving oauth2 server metadata" errors of the three authenticators. `api_key` and `basic_auth`
+cannot fail at request time. -/
+theorem c04_endpoint_authentication_failure_is_no_argument_error (auth : EndpointAuth) (e : Err)
+    (h : auth.failure = some e) :
+    (authenticationFailed e).is .argument = false ∧
+    (metadataRequestFailed (authenticationFailed e)).is .argument = false ∧
+    (Verdict.fail GenSite.requestFailed (authenticationFailed e)).wf GenSite.verifies = true ∧
+    (Verdict.fail JwtSite.requestFailed (authenticationFailed e)).wf JwtSite.verifies = true ∧
+    (Verdict.fail IntroSite.requestFailed (authenticationFailed e)).wf IntroSite.verifies = true ∧
+    (Verdict.fail JwtSite.metadataFailed (metadataRequestFailed (authenticationFailed e))).wf JwtSite.verifies = true ∧
+    (Verdict.fail IntroSite.metadataFailed (metadataRequestFailed (authenticationFailed e))).wf IntroSite.verifies
+      = true ∧
+    (auth = .apiKey ∨ auth = .basicAuth ∨ auth = .noAuth → False) := by
+  have he := endpointAuth_failure_arg_free auth e h
+  refine ⟨?_, ?_, ?_, ?_, ?_, ?_, ?_, ?_⟩ <;>
+    first
+    | (rintro (rfl | rfl | rfl) <;> simp [EndpointAuth.failure] at h)
+    | simp [authenticationFailed, metadataRequestFailed, Verdict.wf, GenSite.verifies, JwtSite.verifies,
+        IntroSite.verifies, he]
+
+example : (EndpointAuth.clientCredentials (.badRequest (some "invalid_scope"))).failure =
+      some (.chain [.kind .communication, .foreign]) ∧
+    (EndpointAuth.clientCredentials (.status 503)).failure = some (.chain [.kind .communication]) ∧
+    (EndpointAuth.clientCredentials .token).failure = none ∧ EndpointAuth.apiKey.failure = none := by decide
+
+/-- **A credential that was found stays found when heimdall cannot authenticate its own request to the endpoint**:
+the authenticator (`generic`, `oauth2_introspection`, `jwt`; directly or behind a metadata endpoint) found a
+credential, the endpoint's `oauth2_client_credentials` strategy fails — for every answer of the authorization server
+— and the authenticator does not allow fallback: authentication fails with "failed creating request", no argument
+error, whatever follows (e.g. `anonymous`), and no later authenticator is consulted. -/
+theorem c04_failed_endpoint_authentication_is_final (w : World) (r : Req) (pre post : List Authn) (a : Authn)
+    (ss : List Strategy) (tok : String) (auth : EndpointAuth) (c : Err)
+    (hw : w.wf = true) (hc : (pre ++ a :: post).all Authn.wf = true)
+    (hpre : ∀ b ∈ pre, fails w r b = true ∧ (usable w b r = false ∨ b.fallback = true))
+    (hauth : auth.failure = some c) (hcred : credential ss r = some tok)
+    (ht : (a.typ = .generic ss ∧ w.genVerdict a.key tok = .fail .requestFailed (authenticationFailed c)) ∨
+          (a.typ = .introspection ss ∧
+            (w.introVerdict a.key tok = .fail .requestFailed (authenticationFailed c) ∨
+             w.introVerdict a.key tok = .fail .metadataFailed (metadataRequestFailed (authenticationFailed c)))) ∨
+          (a.typ = .jwt ss ∧ w.parsesJWT tok = true ∧
+            (w.jwtVerdict a.key tok = .fail .requestFailed (authenticationFailed c) ∨
+             w.jwtVerdict a.key tok = .fail .metadataFailed (metadataRequestFailed (authenticationFailed c)))))
+    (hf : a.fallback = false) :
+    ∃ e, a.execute w r = .error e ∧ e.is .internal = true ∧ e.is .argument = false ∧
+      run w r (pre ++ a :: post) = .failure e ∧ runConsulted w r (pre ++ a :: post) = pre.length + 1 := by
+  have hca := endpointAuth_failure_arg_free auth c hauth
+  have hext : extract ss r = .ok tok := (extract_ok_iff ss r tok).2 hcred
+  obtain ⟨id, typ, af, ov, key⟩ := a
+  simp only at ht
+  have hex : ∃ e, Authn.execute w ⟨id, typ, af, ov, key⟩ r = .error e ∧ e.is .internal = true ∧
+      e.is .argument = false ∧ usable w ⟨id, typ, af, ov, key⟩ r = true := by
+    rcases ht with ⟨ht, hv⟩ | ⟨ht, hv⟩ | ⟨ht, hj, hv⟩
+    · subst ht
+      refine ⟨_, by simp [Authn.execute, hext, hv, Verdict.outcome]; rfl, ?_, ?_, by simp [usable, hcred]⟩ <;>
+        simp [GenSite.shape, build_is, authenticationFailed, hca]
+    · subst ht
+      rcases hv with hv | hv
+      · refine ⟨_, by simp [Authn.execute, hext, hv, Verdict.outcome]; rfl, ?_, ?_, by simp [usable, hcred]⟩ <;>
+          simp [IntroSite.shape, build_is, authenticationFailed, hca]
+      · refine ⟨_, by simp [Authn.execute, hext, hv, Verdict.outcome]; rfl, ?_, ?_, by simp [usable, hcred]⟩ <;>
+          simp [IntroSite.shape, build_is, authenticationFailed, metadataRequestFailed, hca]
+    · subst ht
+      rcases hv with hv | hv
+      · refine ⟨_, by simp [Authn.execute, hext, hj, hv, Verdict.outcome]; rfl, ?_, ?_, by simp [usable, hcred, hj]⟩ <;>
+          simp [JwtSite.shape, build_is, authenticationFailed, hca]
+      · refine ⟨_, by simp [Authn.execute, hext, hj, hv, Verdict.outcome]; rfl, ?_, ?_, by simp [usable, hcred, hj]⟩ <;>
+          simp [JwtSite.shape, build_is, authenticationFailed, metadataRequestFailed, hca]
+  obtain ⟨e, hx, hi, ha, hu⟩ := hex
+  have hfin := c04_rejected_is_final w r pre post _ e hw hc hpre hx hu hf
+  exact ⟨e, hx, hi, ha, hfin.1, hfin.2⟩
+
+/-- a session the identity endpoint would know — but heimdall's own token request to the authorization server is
+answered with `400 invalid_scope` -/
+def wWorldEndpointAuth : World :=
+  { gen := [(("gen", "stolen-session"),
+      .fail .requestFailed (authenticationFailed (.chain [.kind .communication, .foreign])))] }
+
+def wReqStolenSession : Req := { cookies := [("session", "stolen-session")] }
+
+/-- the hypotheses of the theorem are satisfiable; the failure is final, `anonymous` is not consulted, and the
+judgement rejects a run that hands the request to `anonymous` -/
+example : wWorldEndpointAuth.wf = true ∧
+    (EndpointAuth.clientCredentials (.badRequest (some "invalid_scope"))).failure =
+      some (.chain [.kind .communication, .foreign]) ∧
+    credential [.cookie "session"] wReqStolenSession = some "stolen-session" ∧
+    run wWorldEndpointAuth wReqStolenSession wChainGen =
+      .failure (.chain [.kind .internal, .chain [.kind .internal, .chain [.kind .communication, .foreign]]]) ∧
+    runConsulted wWorldEndpointAuth wReqStolenSession wChainGen = 1 ∧
+    judge wWorldEndpointAuth wReqStolenSession wChainGen
+      [("gen", .err [.argument, .communication, .internal]), ("anon", .ok "anonymous")] (some (.ok "anonymous")) = false ∧
+    judge wWorldEndpointAuth wReqStolenSession wChainGen
+      [("gen", .err [.communication, .internal])] (some (.err [.communication, .internal])) = true := by decide
+
+/-- were the error document of the authorization server to *match* `ErrArgument` for the codes that blame the request
+(`invalid_request`, `invalid_scope`, `unsupported_grant_type` — an `Is` method on that error type, written for the
+benefit of error handlers), the model's assumption "it matches no heimdall sentinel" would be wrong, the world outside
+`World.wf`, and the unchanged loop would serve the request with the stolen session as `anonymous` -/
+def wWorldEndpointAuthAsArgument : World :=
+  { gen := [(("gen", "stolen-session"),
+      .fail .requestFailed (authenticationFailed (.chain [.kind .communication, .kind .argument])))] }
+
+example : wWorldEndpointAuthAsArgument.wf = false ∧
+    run wWorldEndpointAuthAsArgument wReqStolenSession wChainGen = .subject "anonymous" := by decide
 
 end Heimdall.Props.C04
